@@ -339,6 +339,38 @@ pub fn gen_nested(rng: &mut StdRng, depth: usize) -> (Vec<OpDesc>, String) {
     (tab, format!("{pre} v0 {post}"))
 }
 
+/// chains `v0 o1 v1 o2 ...` whose priorities impose a chosen application order (C14)
+pub fn gen_chain(rng: &mut StdRng, n_operands: usize, pattern: u8) -> (Vec<OpDesc>, String) {
+    let nops = n_operands - 1;
+    let levels = nops.min(90);
+    // operators p0..p{levels-1} with priorities 0..levels-1 (capped at 99), all non-commutative
+    let tab: Vec<OpDesc> = (0..levels)
+        .map(|k| OpDesc { name: intern(&format!("p{k}")), bin: true, un: false, constant: false, prio: (k as i64).min(99), comm: false })
+        .collect();
+    // priority level of the operator at each position
+    let lvl: Vec<usize> = (0..nops)
+        .map(|i| {
+            let x = match pattern {
+                0 => i,                                   // ascending: rightmost first
+                1 => nops - 1 - i,                        // descending: leftmost first
+                2 => if i % 2 == 0 { i / 2 } else { nops - 1 - i / 2 }, // alternating
+                3 => { let m = nops / 2; if i >= m { i - m } else { m - i } } // inside-out
+                4 => rng.random_range(0..nops),
+                _ => (i * 7919) % nops,
+            };
+            x * levels / nops.max(1)
+        })
+        .collect();
+    let mut s = String::new();
+    for i in 0..n_operands {
+        if i > 0 {
+            s.push_str(&format!(" p{} ", lvl[i - 1].min(levels - 1)));
+        }
+        if rng.random_bool(0.5) { s.push_str(&format!("v{i}")) } else { s.push_str(&format!("{i}")) }
+    }
+    (tab, s)
+}
+
 /// token soup: random sequences of tokens of the table, parentheses, commas, literals, variables and junk
 pub fn gen_soup(rng: &mut StdRng, len: usize) -> (Vec<OpDesc>, String) {
     let tab = gen_table(rng);
@@ -476,6 +508,13 @@ pub fn main(args: &[String]) -> i32 {
                 };
                 let s = gen_lex_text(&mut rng, &t);
                 (t, s, family.clone())
+            }
+            "chain" => {
+                let sizes = [9usize, 17, 31, 32, 33, 63, 64, 65, 66, 127, 128, 129, 130, 191, 192, 193, 194, 257, 300];
+                let n_ops = sizes[(i as usize) % sizes.len()];
+                let pat = ((i as usize) / sizes.len() % 6) as u8;
+                let (t, s) = gen_chain(&mut rng, n_ops, pat);
+                (t, s, format!("chain{n_ops}-{pat}"))
             }
             "soup" => {
                 let l = rng.random_range(1..=30);
